@@ -5,8 +5,12 @@ pub assume_specification<T, K: Ord, F: FnMut(&T) -> K>[ <[T]>::sort_by_key ](s: 
     ensures final(s)@.len() == old(s)@.len(), final(s)@.to_multiset() == old(s)@.to_multiset();
 pub assume_specification<T, K: Ord, F: FnMut(&T) -> K>[ <[T]>::sort_unstable_by_key ](s: &mut [T], f: F)
     ensures final(s)@.len() == old(s)@.len(), final(s)@.to_multiset() == old(s)@.to_multiset();
+/// std: "sorts the slice with a comparator function, preserving initial order of equal elements":
+/// the result is a permutation in which no earlier element compares Greater than a later one.
 pub assume_specification<T, F: FnMut(&T, &T) -> core::cmp::Ordering>[ <[T]>::sort_by ](s: &mut [T], f: F)
-    ensures final(s)@.len() == old(s)@.len(), final(s)@.to_multiset() == old(s)@.to_multiset();
+    ensures final(s)@.len() == old(s)@.len(), final(s)@.to_multiset() == old(s)@.to_multiset(),
+        forall|i: int, j: int| #![trigger final(s)@[i], final(s)@[j]] 0 <= i < j < final(s)@.len() ==>
+            exists|o: core::cmp::Ordering| #[trigger] call_ensures(f, (&final(s)@[i], &final(s)@[j]), o) && !(o is Greater);
 pub assume_specification<T: Ord>[ <[T]>::sort ](s: &mut [T])
     ensures final(s)@.len() == old(s)@.len(), final(s)@.to_multiset() == old(s)@.to_multiset();
 pub assume_specification<T>[ <[T]>::reverse ](s: &mut [T])
